@@ -338,7 +338,7 @@ def eager_contraction_tensor(red_op, bin_op, reduced_vars, *terms):
     if not all(term.dtype == "real" for term in terms):
         raise NotImplementedError("TODO")
     backend = BACKEND_TO_EINSUM_BACKEND[get_backend()]
-    return _eager_contract_tensors(reduced_vars, terms, backend=backend)
+    return _eager_contract_tensors(red_op, reduced_vars, terms, backend=backend)
 
 
 @eager.register(Contraction, ops.LogaddexpOp, ops.AddOp, frozenset, Tensor, Tensor)
@@ -346,11 +346,19 @@ def eager_contraction_tensor(red_op, bin_op, reduced_vars, *terms):
     if not all(term.dtype == "real" for term in terms):
         raise NotImplementedError("TODO")
     backend = BACKEND_TO_LOGSUMEXP_BACKEND[get_backend()]
-    return _eager_contract_tensors(reduced_vars, terms, backend=backend)
+    return _eager_contract_tensors(red_op, reduced_vars, terms, backend=backend)
 
 
 # TODO Consider using this for more than binary contractions.
-def _eager_contract_tensors(reduced_vars, terms, backend):
+def _eager_contract_tensors(red_op, reduced_vars, terms, backend):
+    # Variables that no term mentions contribute a multiplicity; defer to Reduce.
+    unrelated_vars = reduced_vars - frozenset().union(*(t.input_vars for t in terms))
+    if unrelated_vars:
+        result = _eager_contract_tensors(
+            red_op, reduced_vars - unrelated_vars, terms, backend
+        )
+        return result.reduce(red_op, unrelated_vars)
+
     iter_symbols = map(opt_einsum.get_symbol, itertools.count())
     symbols = defaultdict(functools.partial(next, iter_symbols))
 
